@@ -11,3 +11,12 @@ def run(rep):
     mr.rule_other_text(rep)
     mr.rule_token_table(rep)
     mr.rule_reset(rep)
+from . import builder_rules as br
+_r=run
+def run(rep):
+    _r(rep)
+    br.rule_docstring_ast(rep)
+    br.rule_rect(rep)
+    br.rule_locations(rep)
+    br.rule_ids(rep)
+    mr.rule_reset(rep, "C15.reset", classes=("gherkin.ast_builder.AstBuilder","gherkin.token_formatter_builder.TokenFormatterBuilder"))
